@@ -131,6 +131,18 @@ Theorem c02_dispatch_by_invocability_is_dispatch_by_class :
 Proof. exact call_impl_class. Qed.
 Print Assumptions c02_dispatch_by_invocability_is_dispatch_by_class.
 
+(* One shared source, several users: a SharedFuture built once (its Result is [o_res os]) and returned from callbacks
+   of any number of pipelines is flattened to that same Result by every one of them, whatever ran before; a direct
+   read is the same Result by definition of [handle_of].  That reading the shared state does not change it is an
+   assumption of the model, checked on the library by the (share ...) cases of checks/c02.py. *)
+Theorem c02_shared_handle_same_result_for_every_user :
+  forall os q id par a rt body oq o i,
+  core_run q = Some oq -> core_run (PThen q id par a rt body) = Some o ->
+  invoked par (arrives a oq) = Some i -> body i = RetAsync KShared (handle_of os) ->
+  o_res o = o_res os /\ o_evs o = o_evs oq ++ [Ev id (exec_of a oq) (is_call a) i].
+Proof. exact shared_handle_same_result. Qed.
+Print Assumptions c02_shared_handle_same_result_for_every_user.
+
 (* ---- non-vacuity: programs run on the real library by harness/h_c02 (final Result and calls as observed there) *)
 Local Open Scope Z_scope.
 
